@@ -5,8 +5,10 @@ FAMILIES = ['plain', 'timeout', 'resize', 'saturate', 'satreuse']
 PER_FAMILY = (300, 6000)
 
 
-PROOF = S.pool_proof('C08', ['C08_never_more_than_max', 'C08_accepted_submit_fills_the_pool', 'C08_registered_job_always_has_a_worker_coming', 'C08_structure'],
-                    "'max_workers tasks do run simultaneously' is observed in the saturate / satreuse families (the model counts registered workers, not running tasks); max_workers changes by _resize are not modelled; the reusable executor's fixed queue capacity bounds the delivered parallelism (H19, known)", extra_gen=['Resize'])
+PROOF = S.pool_proof('C08', ['C08_never_more_than_max', 'C08_accepted_submit_fills_the_pool', 'C08_registered_job_always_has_a_worker_coming', 'C08_structure',
+                     'C08_plain_executor_delivers_its_parallelism', 'C08_reusable_executor_delivers_up_to_its_queue_capacity', 'C08_delivered_parallelism_partial',
+                     'C08_delivered_parallelism_refuted_for_small_queues', 'C08_wake_on_take_would_deliver'],
+                    "'max_workers tasks do run simultaneously': Model/QueueCap.v (counters; capacity formulas regenerated from the source) + the saturate / satreuse families, whose settled states must meet the proved bound; max_workers changes by _resize are not modelled; the reusable executor's fixed queue capacity bounds the delivered parallelism (H19, known)", extra_gen=['Resize'])
 
 
 def run(ctx):
